@@ -132,3 +132,120 @@ theorem writer_finishes (s : RecSt) (hsd : s.shutdown = true) (hpc : s.pc ≠ .d
       simp [recRun, recStep, hp, hq, hsd]
 
 end QmiModel.C17.RecL
+
+/-! ## attributes: newest value wins, nothing is dropped while the dataset exists or is still to come -/
+namespace QmiModel.C17.RecL
+open QmiModel.C17
+
+theorem upd_empty (a : Attrs) : a.upd Attrs.empty = a := by
+  funext k; simp [Attrs.upd, Attrs.empty]
+
+theorem upd_assoc (a b c : Attrs) : (a.upd b).upd c = a.upd (b.upd c) := by
+  funext k; simp only [Attrs.upd]; cases c k <;> rfl
+
+theorem upd_set (a b : Attrs) (k v : Nat) : (a.upd b).set k v = a.upd (b.set k v) := by
+  funext x; simp only [Attrs.upd, Attrs.set]; split <;> rfl
+
+structure AInv (s : RecSt) : Prop where
+  eff       : ∀ d, effAttrs s d = s.want d
+  idle_new  : s.pc ≠ .flushing → ∀ d, s.newA d = none
+  pend_file : ∀ d, s.pendA d ≠ none → s.file d = []
+
+theorem ainv_init : AInv RecSt.init := by
+  refine ⟨?_, ?_, ?_⟩
+  · intro d; funext k; simp [effAttrs, RecSt.init, Attrs.upd, Attrs.empty]
+  · intro _ d; rfl
+  · intro d h; exact absurd rfl h
+
+theorem ainv_step (s s' : RecSt) (a : RecAct) (h : AInv s) (hs : recStep s a = some s') : AInv s' := by
+  cases a with
+  | record d b =>
+    simp only [recStep] at hs
+    split at hs
+    · cases hs; exact h
+    · cases hs
+      exact ⟨h.eff, h.idle_new, h.pend_file⟩
+  | setAttr d k v =>
+    simp only [recStep] at hs; cases hs
+    refine ⟨?_, h.idle_new, h.pend_file⟩
+    intro e
+    by_cases he : e = d
+    · subst he
+      show (((s.fattrs e).upd ((s.pendA e).getD Attrs.empty)).upd ((s.newA e).getD Attrs.empty)).upd
+          ((fupd s.sattrs e (some (((s.sattrs e).getD Attrs.empty).set k v)) e).getD Attrs.empty) = fupd s.want e ((s.want e).set k v) e
+      rw [fupd_same, fupd_same, Option.getD_some, ← upd_set, ← h.eff e]; rfl
+    · show (((s.fattrs e).upd ((s.pendA e).getD Attrs.empty)).upd ((s.newA e).getD Attrs.empty)).upd
+          ((fupd s.sattrs d (some (((s.sattrs d).getD Attrs.empty).set k v)) e).getD Attrs.empty) = fupd s.want d ((s.want d).set k v) e
+      rw [fupd_other _ _ _ _ he, fupd_other _ _ _ _ he]; exact h.eff e
+  | shutdown =>
+    simp only [recStep] at hs; cases hs
+    exact ⟨h.eff, h.idle_new, h.pend_file⟩
+  | swap =>
+    simp only [recStep] at hs
+    split at hs
+    · rename_i hen
+      cases hs
+      have hn := h.idle_new (by rw [hen.1]; decide)
+      refine ⟨?_, fun hp => absurd rfl hp, h.pend_file⟩
+      intro d
+      have := h.eff d
+      simp only [effAttrs, hn d, Option.getD_none, upd_empty] at this ⊢
+      exact this
+    · cases hs
+  | flush =>
+    simp only [recStep] at hs
+    split at hs
+    · cases hs
+      refine ⟨?_, fun _ _ => rfl, ?_⟩
+      · intro d
+        have he := h.eff d
+        show ((((flushAttrs s d).1).upd (((flushAttrs s d).2).getD Attrs.empty)).upd ((none : Option Attrs).getD Attrs.empty)).upd
+            ((s.sattrs d).getD Attrs.empty) = s.want d
+        rw [← he]
+        simp only [effAttrs, flushAttrs, Option.getD_none, upd_empty]
+        split
+        · simp only [Option.getD_none, upd_empty]
+        · cases hn : s.newA d with
+          | none => simp only [Option.getD_none, upd_empty]
+          | some a =>
+            cases hp : s.pendA d with
+            | some p => simp only [Option.getD_some, upd_assoc]
+            | none =>
+              simp only [Option.getD_none, Option.getD_some, upd_empty]
+              split <;> simp only [Option.getD_none, Option.getD_some, upd_empty]
+      · intro d hpd
+        show s.file d ++ (s.loc d).flatten = []
+        have hpd' : (flushAttrs s d).2 ≠ none := hpd
+        simp only [flushAttrs] at hpd'
+        split at hpd'
+        · exact absurd rfl hpd'
+        · rename_i hw
+          have hl : (s.loc d).flatten = [] := by
+            by_cases hh : (s.loc d).flatten = []
+            · exact hh
+            · exact absurd hh hw
+          cases hn : s.newA d with
+          | none =>
+            rw [hn] at hpd'
+            rw [hl, List.append_nil]; exact h.pend_file d hpd'
+          | some a =>
+            rw [hn] at hpd'
+            cases hp : s.pendA d with
+            | some p => rw [hl, List.append_nil]; exact h.pend_file d (by rw [hp]; simp)
+            | none =>
+              rw [hp] at hpd'
+              simp only at hpd'
+              split at hpd'
+              · exact absurd rfl hpd'
+              · rename_i hex
+                by_cases hh : s.file d ++ (s.loc d).flatten = []
+                · exact hh
+                · exact absurd hh hex
+    · cases hs
+
+theorem ainv_reach {s : RecSt} (h : RecReach s) : AInv s := by
+  induction h with
+  | init => exact ainv_init
+  | step a _ hs ih => exact ainv_step _ _ a ih hs
+
+end QmiModel.C17.RecL
